@@ -840,3 +840,22 @@ def operand_same_line(run, R="SPAN"):
         run.check(ok, R, "%s|operand-same-line|%s" % (R, name), f.loc(cs[0][1]["span"]), "%s looks for the end of the line before parsing its operand" % name,
                   "%s hands over to the expression parser without looking for the end of the line: with the operand missing, the expression parser reads on and the first error is located on a later line (the next instruction is reported as an unknown symbol), not on the faulty one" % name)
     run.floor(R, "operand parsers", n, 6)
+
+
+def match_text_rule(run, R="SRC"):
+    """the matcher locates what it reads by offsets from the span it is given: the text it is given must be the text at that span --
+    the instruction node's own `src` together with the node's own `span`"""
+    from rules_sym import deep
+    n = 0
+    for f in run.prog.real_fns():
+        for bi, t in f.calls():
+            if (t.get("resolved") or t.get("callee") or "") != "asm::matcher::match_instr":
+                continue
+            n += 1
+            span = [deep(f, a, 6) for a, ty in zip(t["args"], t.get("arg_tys") or []) if ty.endswith("span::Span")]
+            text = [deep(f, a, 6) for a, ty in zip(t["args"], t.get("arg_tys") or []) if ty in ("&str", "&std::string::String")]
+            ok = len(span) == 1 and len(text) == 1 and span[0].endswith(".span") and text[0] == span[0][:-len(".span")] + ".src"
+            root = f.raw.get("root") or f.id
+            run.check(ok, R, "%s|match-text|%s" % (R, root), f.loc(t["span"]), "%s matches an instruction's own text at its own span" % root.rsplit("::", 1)[-1],
+                      "%s hands the matcher the text `%s` to be located at `%s`: offsets into a text that is not what stands at that span give argument locations that cover other text (and can end inside a multi-byte character)" % (root, (text or ["?"])[0][:90], (span or ["?"])[0][:60]))
+    run.floor(R, "calls of the matcher", n, 2)
